@@ -233,7 +233,8 @@ struct failing_buf : std::streambuf {
     int_type underflow() override { return traits_type::eof(); }
 };
 
-// returns: 0 returned a field, 10 std::exception, 11 other exception
+// returns: 0 returned a field, 10 std::exception, 11 other exception, 12 returned a field and the injected read failure was
+// never reached (the loader needed fewer read calls than the fault's position: no fault occurred, nothing to reject)
 static int try_load(std::size_t tid, const std::string & bytes, long fail_at, json * layers_out, int mask = 0) {
     int rc = -1;
     dispatch(tid, [&](auto tag) {
@@ -245,7 +246,7 @@ static int try_load(std::size_t tid, const std::string & bytes, long fail_at, js
             if (mask == 2) is.exceptions(std::ios::eofbit);
             covfie::field<B> f(is);
             if (layers_out) { json l = json::array(); extract<B>(f.backend(), l); *layers_out = l; }
-            rc = 0;
+            rc = (fail_at && fb.reads < fail_at) ? 12 : 0;
         } catch (const std::exception &) { rc = 10; } catch (...) { rc = 11; }
     });
     return rc;
@@ -265,6 +266,7 @@ static std::string outcome_in_child(std::size_t tid, const std::string & bytes, 
     if (WIFSIGNALED(st)) return WTERMSIG(st) == SIGALRM ? "hang" : (WTERMSIG(st) == SIGABRT ? "aborted" : "signal-" + std::to_string(WTERMSIG(st)));
     int rc = WEXITSTATUS(st);
     if (rc == 0) return "returned";
+    if (rc == 12) return "fault-not-reached";
     if (rc == 10 || rc == 11) return "threw";
     if (rc == 99) return "valgrind-error";
     if (rc == 71) return "terminate";
@@ -462,7 +464,7 @@ int main(int argc, char ** argv) {
                     outcomes[o]++;
                     ++g_checks;
                     if (o == "hang" && outcomes[o] > 3) { summary({{"outcomes", outcomes}, {"stopped_early", "loader hangs"}}); return 0; }   // do not wait out every case
-                    if (o != "threw") mismatch("io/fault-" + kind + "/" + o + "/type" + std::to_string(tid), {{"type", tid}, {"valueset", c["v"]}, {"fault", ft}, {"variant", desc}, {"outcome", o}, {"stream_exception_mask", mask}, {"specified", "threw"}});
+                    if (o != "threw" && o != "fault-not-reached") mismatch("io/fault-" + kind + "/" + o + "/type" + std::to_string(tid), {{"type", tid}, {"valueset", c["v"]}, {"fault", ft}, {"variant", desc}, {"outcome", o}, {"stream_exception_mask", mask}, {"specified", "threw"}});
                 }
             }
         }
